@@ -487,7 +487,7 @@ fn next_perm(v: &mut [usize]) -> bool {
 /// exhaustive delivery schedules of small honest packets (real Fragmenter output at the minimum MTU):
 /// every permutation of the frames of `frames_per_packet` packets, every permutation with one frame
 /// duplicated, every permutation with one frame lost – for every queue count in `queues`
-fn gen_exhaustive(rng: &mut Rng, frames_per_packet: &[usize], queues: &[usize], with_dup_drop: bool, out: &mut Vec<Schedule>) {
+fn gen_exhaustive(rng: &mut Rng, rep: &mut Report, frames_per_packet: &[usize], queues: &[usize], with_dup_drop: bool, out: &mut Vec<Schedule>) {
     let mut fr = Fragmenter::new_unobserved(MIN_MTU);
     if rng.chance(1, 2) {
         fr.verif_set_stream_offset(u64::MAX - rng.below(400));
@@ -500,8 +500,13 @@ fn gen_exhaustive(rng: &mut Rng, frames_per_packet: &[usize], queues: &[usize], 
         let size = (n - 1) * p + rng.range(1, p as u64) as usize;
         let data = rng.bytes(size);
         let mut frames = vec![];
-        let so = fr.send(&data, |f| frames.push(f.to_vec())).expect("send");
-        assert_eq!(frames.len(), *n);
+        let so = match catch(|| fr.send(&data, |f| frames.push(f.to_vec()))) {
+            Ok(Ok(so)) if frames.len() == *n => so,
+            other => {
+                rep.spec_fail("C17:panic", &format!("Fragmenter::send of {size} bytes at MTU {MIN_MTU} (stream offset near u64::MAX: {}) panicked or failed: {:?}", sent.keys().next().map_or(true, |k: &u64| *k > u64::MAX - 70_000), other.map(|r| r.ok())), json!({"size": size, "mtu": MIN_MTU}));
+                return;
+            }
+        };
         sent.insert(so, data);
         sent_offs.insert(so, frames.iter().map(|f| hd(f).unwrap().1).collect::<Vec<_>>());
         all.extend(frames);
@@ -631,6 +636,15 @@ fn gen_count_match(rng: &mut Rng) -> Schedule {
             chosen[k] = *n;
         }
     }
+    // one third: a low run 0..a plus a run that starts at the first bit of the second mask word, LAST frame
+    // placed so that the count matches (a + b regular frames, LAST at index a + b)
+    let mut a = a;
+    if rng.chance(1, 3) {
+        let lo = rng.range(1, 4) as usize;
+        let hi = rng.range(1, 3) as usize;
+        chosen = (0..lo).chain(128..128 + hi).collect();
+        a = lo + hi;
+    }
     let so = 7u64;
     let mut frames: Vec<Vec<u8>> = chosen.iter().map(|i| { let pl = rng.bytes(w); mk_frame(so, (i * w) as u16, 0, &pl, 0) }).collect();
     let last_len = *rng.pick(&[1usize, 10, w - 1, w]);
@@ -753,7 +767,7 @@ fn main() {
         let txt = std::fs::read_to_string(p).expect("replay file");
         schedules = txt.lines().filter_map(parse_corpus_line).collect();
     } else {
-        let n = args.scale(800, 40000);
+        let n = args.scale(800, 30000);
         for i in 0..n {
             if i % 2 == 0 {
                 let s = gen_honest(&mut rng, &mut rep, &mut lean);
@@ -766,14 +780,13 @@ fn main() {
         }
         // exhaustive small schedules: 2 packets x 2 frames on 1 and 2 queues (permutations, one duplicate, one loss);
         // 3 packets x 2 frames on 2 queues = Q+1 packets in flight (permutations)
-        gen_exhaustive(&mut rng, &[2, 2], &[1, 2], true, &mut schedules);
-        gen_exhaustive(&mut rng, &[2, 2, 2], &[2], false, &mut schedules);
+        gen_exhaustive(&mut rng, &mut rep, &[2, 2], &[1, 2], true, &mut schedules);
+        gen_exhaustive(&mut rng, &mut rep, &[2, 2, 2], &[2], false, &mut schedules);
         if args.thorough() {
-            gen_exhaustive(&mut rng, &[3, 2], &[1, 2, 3], true, &mut schedules);
-            gen_exhaustive(&mut rng, &[2, 2, 2], &[1, 3], false, &mut schedules);
-            gen_exhaustive(&mut rng, &[2, 2, 2], &[2], true, &mut schedules);
-            gen_exhaustive(&mut rng, &[3, 3], &[1, 2], true, &mut schedules);
-            gen_exhaustive(&mut rng, &[2, 2, 2, 2], &[3], false, &mut schedules);
+            gen_exhaustive(&mut rng, &mut rep, &[3, 2], &[1, 2, 3], true, &mut schedules);
+            gen_exhaustive(&mut rng, &mut rep, &[2, 2, 2], &[1, 3], false, &mut schedules);
+            gen_exhaustive(&mut rng, &mut rep, &[2, 2, 2], &[2], true, &mut schedules);
+            gen_exhaustive(&mut rng, &mut rep, &[3, 3], &[1, 2], false, &mut schedules);
         }
     }
     // deterministic probes (honest sender, real Fragmenter output)
@@ -781,13 +794,18 @@ fn main() {
         let mk = |fr: &mut Fragmenter, rng: &mut Rng, size: usize| {
             let data = rng.bytes(size);
             let mut frames = vec![];
-            let so = fr.send(&data, |f| frames.push(f.to_vec())).unwrap();
+            let so = catch(|| fr.send(&data, |f| frames.push(f.to_vec()))).ok().and_then(|r| r.ok());
             (so, data, frames)
         };
-        let sched = |kind: &'static str, queues: usize, pk: &[&(u64, Vec<u8>, Vec<Vec<u8>>)], order: &[(usize, usize)]| {
+        let mut probe_failed = false;
+        let mut sched = |kind: &'static str, queues: usize, pk: &[&(Option<u64>, Vec<u8>, Vec<Vec<u8>>)], order: &[(usize, usize)]| {
             let mut sent = HashMap::new();
             let mut sent_offs = HashMap::new();
             for (so, data, frames) in pk.iter().map(|x| (&x.0, &x.1, &x.2)) {
+                let Some(so) = so else {
+                    probe_failed = true;
+                    return Schedule { kind, queues, frames: vec![], sent: HashMap::new(), sent_offs: HashMap::new() };
+                };
                 sent.insert(*so, data.clone());
                 sent_offs.insert(*so, frames.iter().map(|f| hd(f).unwrap().1).collect::<Vec<_>>());
             }
@@ -810,6 +828,9 @@ fn main() {
         let a = mk(&mut fr, &mut rng, 300);
         let b = mk(&mut fr, &mut rng, 300);
         schedules.push(sched("probe-offset-u64-max", 2, &[&a, &b], &[(0, 0), (0, 1), (1, 1), (1, 0)]));
+        if probe_failed {
+            rep.spec_fail("C17:panic", "Fragmenter::send panicked or failed on a probe packet (300 bytes at MTU 272, stream offset u64::MAX or small)", json!({"size": 300, "mtu": MIN_MTU}));
+        }
     }
     rep.hit_n("corpus schedules", n_corpus as u64);
     for s in &schedules {
